@@ -809,3 +809,23 @@ pub fn l1_app_exception<P: Proto, const DIR: u8>() {
     }
     kani::cover!(true, "reached end");
 }
+
+/// zigzag varint of exactly L bytes with symbolic payload bits restricted to 32-bit values;
+/// returns (bytes, unsigned varint value)
+#[cfg(kani)]
+pub fn sym_zz_varint<const L: usize>() -> ([u8; L], u64) {
+    let raw: [u8; L] = kani::any();
+    let mut out = [0u8; L];
+    let mut v: u64 = 0;
+    let mut i = 0;
+    while i < L {
+        let payload = raw[i] & 0x7f;
+        if i == 4 {
+            kani::assume(payload <= 0x0f);
+        }
+        out[i] = if i + 1 < L { payload | 0x80 } else { payload };
+        v |= (payload as u64) << (7 * i as u32);
+        i += 1;
+    }
+    (out, v)
+}
